@@ -97,7 +97,7 @@ def run_script(c, exe, script, tag, trace_module="TraceArgEval", timeout=600, en
             if ln.startswith('{"e":"Eval"'):
                 stats["ok" if '"out":"ok"' in ln else "err" if '"out":"err"' in ln else "other"] += 1
     c.notes.append("%s: outcomes recorded from the implementation: %s" % (tag, dict(stats)))
-    return c.validate(SPEC, trace_module, trace_module + ".cfg", tr, tag, shards=shards), tr
+    return c.validate(SPEC, trace_module, trace_module + ".cfg", tr, tag, shards=shards, stateless=True), tr
 
 
 def line_json(line):
